@@ -13,11 +13,15 @@ def jobs(tier):
         Job("func", M, "h_func", dict(C05_MAXP=2, C05_NTYPES=1), shards=127, timeout=t),
         Job("class", M, "h_class", dict(C05_NTYPES=2), shards=61, timeout=t),
         Job("types", M, "h_types", dict(C05_NTYPES_ALL=6), shards=61, timeout=t),
+        Job("resolved", M, "h_resolved", {}, shards=31, timeout=t,
+            note="text printed from ASTs resolved by the real AdjustTypeParameters / AdjustSelf visitors"),
     ]
   return [
       Job("func", M, "h_func", dict(C05_MAXP=2, C05_NTYPES=6), shards=509, timeout=t),
       Job("class", M, "h_class", dict(C05_NTYPES=5), shards=251, timeout=t),
       Job("types", M, "h_types", dict(C05_NTYPES_ALL=18), shards=509, timeout=t),
+      Job("resolved", M, "h_resolved", {}, shards=31, timeout=t,
+          note="text printed from ASTs resolved by the real AdjustTypeParameters / AdjustSelf visitors"),
   ]
 
 
@@ -38,18 +42,23 @@ def meta(tier):
           "both, method/staticmethod/classmethod/property (Annotated form), constant, nested class, @final. types: "
           "constant/parameter/return types over 18 forms (Optional, Union, Callable incl. ..., tuple forms incl. (), "
           "Literal of int/str/bool, type[.], dict/list nesting, TypeVar) plus a type alias and a module-qualified type. "
+          "resolved: a class nested 0-2 deep in a generic or plain outer class, with a method / classmethod / staticmethod / "
+          "property whose first parameter is unannotated, annotated with the short or with the qualified class name, is "
+          "parsed and then RESOLVED by the real visitors the emitter applies (AdjustTypeParameters: class templates; "
+          "AdjustSelf plain or forced: self / cls types); the text printed from that resolved AST must be a fixed point of "
+          "plain parse-then-print, equal to the text printed before resolving, and verify. "
           "Structural inputs: solver-certified exhaustive walk."),
       "functions_encoded": [
           "pytype/pytd/printer.py: PrintVisitor (all Visit*/Enter*/Leave* reached), import bookkeeping; pytype/pytd/pytd_utils.py: Print, ASTeq",
           "pytype/pyi/parser.py: parse_string, parse_pyi, _GeneratePytdVisitor, post_process_ast, canonical_pyi",
           "pytype/pyi/definitions.py, function.py (incl. _apply_defaults, _pytd_signature), classdef.py, modules.py, types.py, conditions.py",
-          "pytype/pytd/visitors.py: VerifyVisitor, CanonicalOrderingVisitor, ClassTypeToNamedType"],
+          "pytype/pytd/visitors.py: VerifyVisitor, CanonicalOrderingVisitor, ClassTypeToNamedType, AdjustTypeParameters, AdjustSelf, ClassAsType"],
       "bounds": {j.name: j.params for j in jobs(tier)},
       "outside": ["stubs emitted for analysed programs (first sentence of the property; needs the VM)",
                   "names needing escaping, ParamSpec, Concatenate, decorators other than the method kinds and @final",
                   "`@property def` form (the parser reads it, pytype does not emit it)",
                   "CPython's ast.parse on the concrete text (trusted)"],
-      "rule": "one record per completed path keyed by the generated stub text; non-trivial: func = at least one parameter, class/types always",
+      "rule": "one record per completed path keyed by the generated stub text (resolved: plus the pipeline); non-trivial: func = at least one parameter, class/types/resolved always",
       "assumptions": ["the stub is parsed without a module name, as parser.canonical_pyi does",
                       "CrossHair contract-enforcement tracer disabled"],
       "trusted_base": ["CPython ast.parse", "CrossHair 0.0.110", "z3"],
